@@ -18,6 +18,7 @@ void Kernel::reset(int64_t epoch_ms) {
 	syscalls = syscalls_in_call = noprogress_in_call = bytes_in_call = 0;
 	inconclusive = false;
 	inconclusive_why.clear();
+	alias_from.clear(); alias_to.clear();
 	errno = 0; // libksi reports stale errno values in places; make them a function of the run alone
 }
 
@@ -60,6 +61,9 @@ void Kernel::fail(const char *prop, const char *rule, const std::string &key, co
 	vsnprintf(buf, sizeof buf, fmt, ap);
 	va_end(ap);
 	Violation v;
+	std::string orig = prop;
+	if (!alias_from.empty() && alias_from == prop) prop = alias_to.c_str();
+	v.oracle_property = orig;
 	v.property = prop; v.rule = rule; v.key = key; v.detail = buf; v.seq = seq;
 	violations.push_back(v);
 	ev("ORACLE %s/%s [%s] %s", prop, rule, key.c_str(), buf);
